@@ -3,7 +3,7 @@
    w = trapezoid weights, s = their (non-zero) square roots ([roots s w]); C = covariance surface
    (rows); (lambda, u) = what the eigen-solver returned for W^{1/2} C W^{1/2} (oracle, characterised
    by the eigen-equation hypothesis); phi = W^{-1/2} u = [back s u]. *)
-From Coq Require Import List Reals QArith.
+From Coq Require Import List Reals QArith Lra Lia.
 From FDAV Require Import Base.Num Base.Vec Base.Quad Model.Ufpca
   Lemmas.Vec Lemmas.Quad Lemmas.Gram Lemmas.Ufpca Gen.TrapzWeights Lemmas.GenTrapzWeights Lemmas.UfpcaSource.
 Import ListNotations.
@@ -78,6 +78,14 @@ Theorem C02_cov_eigen_equation_source_weights : forall x s C u lam, (2 <= length
   mv opsR C (vmul opsR (gen_trapz_weights opsR x) (back opsR s u)) = vscale opsR lam (back opsR s u).
 Proof. exact cov_eigen_equation_source. Qed.
 Print Assumptions C02_cov_eigen_equation_source_weights.
+
+(* the hypotheses of C02_cov_orthonormal_source_weights are met: grid 0, 18, 50 has trapezoid weights 9, 25, 16 *)
+Example C02_source_example : roots [3; 5; 4] (gen_trapz_weights opsR [0; 18; 50]).
+Proof.
+  rewrite gen_trapz_weights_is_model by (simpl; lia).
+  unfold trapz_w. cbn [trapz_w_from]. rewrite !ohalfR, !osubR.
+  unfold roots, osub. cbn [oadd oopp opsR]. repeat (first [apply Forall2_nil | apply Forall2_cons; [split; lra|]]).
+Qed.
 
 Local Close Scope R_scope.
 Local Open Scope Q_scope.
